@@ -64,7 +64,36 @@ CLAIM = dict(
           "/ small, methods default / oc); every run is judged by the same Lean delivery oracle on ALL keys its nets match; "
           "a failing run is re-run alone in a fresh interpreter - if it fails alone it is an ordinary finding, if it "
           "passes alone the finding is history-dependent (state the library kept between calls) and the replay is the "
-          "sequence, confirmed in a fresh interpreter and reduced to the runs needed."),
+          "sequence, confirmed in a fresh interpreter and reduced to the runs needed; (d) HISTORIES of 3-7 calls by ONE "
+          "caller in one process, the rig modules re-imported at the start of each history (so the replay of a history in a "
+          "new process sees what the run saw): the same call repeated with the same objects; TWINS (equal in all but one "
+          "aspect: a net, a sink, the fault map, a vertex's cores, a busy core, the key assignment, one option) in both "
+          "orders; two applications / machines alternately, each with its own objects; the caller EDITING IN PLACE every "
+          "mutable object it passed (vertices_resources and its inner dicts, the nets list, Net.source / sinks / weight, "
+          "net_keys, the constraint lists, Machine attributes and its sets / dicts, the SystemInfo) into a twin and calling "
+          "again; the caller SCRIBBLING on everything it was handed back (tables, entries' source sets, routing trees' "
+          "children, allocations and their inner dicts, placements) before calling again; the caller KEEPING earlier "
+          "results and looking at them again after later calls (a kept result that changed is re-judged by the delivery "
+          "oracle as it is now); stage callables that FAIL once (place / allocate / route / a minimisation method) followed "
+          "by continued use of the same objects; every run of a history is judged by the Lean delivery oracle, a failing "
+          "run is re-run alone in a fresh interpreter, the replay of a history-dependent finding is the history; (e) "
+          "ARGUMENT KINDS and ENVIRONMENT in streams (a), (b), (d): vertices as int, big int, str with format characters, "
+          "tuple (len 0-3), namedtuple, frozenset, plain object, mixed; resource identifiers as str / tuple / object with "
+          "format characters; instances of subclasses of Machine, Net, the four constraint classes and RoutingTableEntry; "
+          "list subclass for sinks, tuple for same-chip groups, frozenset for dead chips / links, OrderedDict / defaultdict "
+          "for net_keys / tables / target lengths; SDRAM quantities around 2**31 .. 2**100 (capacity, reservation, "
+          "allocation positions), net weight 2**100, radius True / 1000 / omitted; optional arguments omitted when at "
+          "their default, stages and minimise_tables called by keyword; busy cores in every non-idle AppState, SDRAM / SRAM "
+          "/ cores / router entries / links differing between the chips of one machine; (f) SCALE: per run 3 (12) cases far "
+          "beyond the usual size - machines 1xN / Nx1 / 2xN with N = 1500..4000 as mesh or torus (trees deeper than the "
+          "interpreter's recursion limit), the same with dead links near one end so that the dead-link repair handles "
+          "subtrees as deep as the machine is long, 420 vertices with nets of 257 / 300 sinks, 257-400 nets through one "
+          "chip - and the three empty cases (no vertices, no nets, nets without sinks), judged by the delivery oracle; (g) "
+          "every call of the implementation runs under a CPU limit (~100x the largest ordinary call: 10 s, 60 s with the "
+          "Python annealer, 120 s for scale cases; 3 / 10 s once two calls did not return): a pipeline that does not return "
+          "is the finding `did-not-return` where the stage models are proved to terminate (seqPlace_terminates, "
+          "alloc_only_failure, route_only_failure, tables_total, minimiseTable_total), a broken correspondence inside the "
+          "annealer / RCM / random placer (no termination theorem)."),
     design="3/C01",
     note=("PROVED: everything about the model pipeline stated above, for all inputs in the domain. Domain restrictions "
           "of the capstone, all named hypotheses (Rig.C01Pipe.Domain / PlacerDomain) and all kept by the generators "
@@ -86,7 +115,24 @@ CLAIM = dict(
           "nothing about rig_c_sa (opaque C kernel: judged by the oracle only) or about place_and_route_wrapper's "
           "derivation of machine and constraints from SystemInfo (that is C14's probe_to_machine_exact; here both wrappers "
           "are exercised by the oracle stream only). A packet returning to a chip already on its path counts as "
-          "circulating."),
+          "circulating. CHECKLIST ITEMS NOT APPLICABLE / LEFT AT THE DEFAULT (and why): `nets` and `constraints` as "
+          "tuples - documented as lists, rig copies them with [:] and assigns items (tuples fail as soon as a "
+          "SameChipConstraint exists); Net(sinks=tuple) - documented: a non-list is ONE vertex; one-shot iterators for "
+          "nets / constraints - every stage iterates them again (vertex_order / chip_order iterators are used); numpy ints, "
+          "bytes / bytearray / memoryview - no byte string and no place where rig itself passes numpy ints in scope; keys "
+          "and masks beyond 32 bits - the property is about 32-bit keys; route(allocations=) left out (default {}) - every "
+          "sink then legitimately gets no core route, the property presupposes the allocations were given; "
+          "has_wrap_around_links(minimum_working), ner_net / a_star / copy_and_disconnect_tree arguments, minimise_table, "
+          "ordered_covering(aliases, no_raise), remove_default_routes.minimise(check_for_aliases) - reached only through "
+          "route() / minimise_tables() with the values those pass (C03 / C04 vary them directly); lazily consumed results "
+          "(5d) - the pipeline returns dicts and lists, RoutingTree.traverse is C10's; anything counted in 8 or 16 bits - "
+          "nothing in scope is (keys 32 bit, routes 24 bit, router entries 1024: more than 1024 entries on a chip is the "
+          "documented MinimisationFailedError, exercised by the many-nets scale case through targets); resource amounts "
+          "beyond 2**31 with the C annealing kernel - rig_c_sa keeps them in 32-bit ints and raises OverflowError "
+          "(reported, kept out of the generator: not this property); an on_temperature_change callback that raises - the "
+          "callback faults are injected at the stage callables. NOT DEMANDED (tagged only): that repeating a call gives the "
+          "same placement; that a failed call leaves the caller's Machine untouched (the next run with the same objects is "
+          "judged like any other)."),
     technique="Lean 4 theorems over a hand-written model + differential correspondence + Lean spec as oracle")
 
 THEOREMS = ["deliveredB_iff", "delivered_no_flag", "deliver_of_tree", "deliver_of_tree_root", "deliver_congr",
@@ -122,7 +168,14 @@ RULE = ("pipelines on machines 1x1..8x8 (quick) / ..24x24 (thorough), torus / me
         "at one source chip), keys = non-intersecting blocks of 1-8 keys + 0-2 partly used blocks + 1-3 key/masks taken "
         "from the merges of earlier runs (60%: with a straddling pair of single keys beside them); with probability 0.5 "
         "a run re-uses the previous application and machine under a new key assignment; all keys of every net are "
-        "injected")
+        "injected. History stream: 30 (quick) / 300 (thorough) histories, problems from the ordinary generator on machines "
+        "1x1..6x4 cut to 12 nets, 40% through the SystemInfo entry points, kinds {repeat, twins x2, edit-passed x2 (walk of "
+        "4-7 runs between the application and two twins), scribble, keep, alternate, fault}, twin aspects {net-drop, "
+        "sink-add, sink-drop, dead-link x3 (one link, or 15% of all links), cores, option, swap-keys, busy-core}. Scale "
+        "stream: 3 (quick) / 12 (thorough) cases + the 3 empty cases. Argument kinds / environment: drawn independently "
+        "per problem (vertex kind 9 ways, subclasses 30%, collection variant 4 ways, big SDRAM 6 of 10 sizes 40%, non-idle "
+        "states 50%, per-chip memory 40%, omitted defaults 40%, big weight 15%, radius from {0, 1, 2, 20, True, 1000, "
+        "omitted})")
 
 PLACERS = ["sa-python", "sa-c", "hilbert", "rcm", "breadth_first", "sequential", "rand"]
 RADII = [0, 1, 2, 20, True, 1000, None]      # True: a bool is an int; None: the argument is omitted (default 20)
@@ -1964,7 +2017,23 @@ def gen_scale_problem(rng, kind, lengths=(1500, 2048, 3000, 4000)):
     return prob
 
 
+def gen_empty_problem(rng, variant):
+    """the other end of the scale: nothing to place / nothing to route"""
+    prob = gen_problem(rng, [(1, 1), (2, 2), (3, 1)], gen_cfg(rng), faulty=False)
+    if variant == "no-vertices":
+        prob.update(vr=[], nets=[], devices=[], cs=[])
+    elif variant == "no-nets":
+        prob["nets"] = []
+    else:
+        prob["nets"] = [[n[0], [], n[2], n[3], n[4]] for n in prob["nets"]]      # nets without sinks only
+    prob["edge"] = variant
+    return prob
+
+
 def eval_scale(ctx, n):
+    for variant in ("no-vertices", "no-nets", "no-sinks"):
+        res = eval_problems(ctx, [gen_empty_problem(ctx.rng, variant)], register=True)
+        ctx.tag("edge_" + variant, "edge_status_" + res[0][1])
     for i in range(n):
         # every third case repairs a deep tree, every third is a long machine, every third has hundreds of sinks / nets
         kind = [["long-repaired"], ["long-1xN", "long-Nx1", "long-2xN"], ["fanout", "many-nets"]][i % 3]
@@ -2358,7 +2427,7 @@ def run(ctx):
     for i in range(0, len(pprobs), 50):
         eval_pipe_problems(ctx, pprobs[i:i + 50])
     # histories: one caller, one process (rig re-imported at the start of each)
-    nh = ctx.scale(30, 400)
+    nh = ctx.scale(30, 300)
     if ctx.extended:
         nh *= 4
     hists = [gen_history(ctx.rng) for _ in range(nh)]
@@ -2370,7 +2439,7 @@ def run(ctx):
         nseq *= 4
     eval_sequences(ctx, nseq)
     # a handful of cases far beyond the usual size
-    eval_scale(ctx, ctx.scale(3, 14))
+    eval_scale(ctx, ctx.scale(3, 12))
 
 
 def replay(ctx, payload):
